@@ -492,6 +492,46 @@ type Rig struct {
 	Partial       bool // the last metadata.Load answered like a file backend
 	CollectionIDs map[uint32]string
 	Opt           Options
+	RM            *couchbase.VerifRM // the replica table of rollback mitigation (real getMinSeqNo / IsOutdated / dispatch)
+}
+
+// RmSwitch turns the rollback-mitigation gate of the observers on or off (the observers read the flag of the shared
+// configuration every time an event arrives). The real rollbackMitigation object needs a connected gocbcore agent
+// (OBSERVE_SEQNO); here its table and reply handling run over the reports the schedule supplies.
+func (r *Rig) RmSwitch(on bool, slots int) {
+	r.Cfg.RollbackMitigation.Interval = 5 * time.Millisecond
+	if on && r.RM == nil {
+		vbs := make([]uint16, r.W.NVB)
+		for i := range vbs {
+			vbs[i] = uint16(i)
+		}
+		r.RM = couchbase.VerifNewRM(vbs, slots, func(vb uint16, seq gocbcore.SeqNo) {
+			if st := r.Stream(); st != nil {
+				stream.VerifDispatchPersistSeqNo(st, vb, seq)
+			}
+		})
+	}
+	r.Cfg.RollbackMitigation.Disabled = !on
+}
+
+// Reap lets the callbacks that still wait at the gate of a discarded process return.
+func (r *Rig) Reap() {
+	r.Client.mu.Lock()
+	defer r.Client.mu.Unlock()
+	for _, ob := range r.Client.Obs {
+		ob.Close()
+	}
+}
+
+func (r *Rig) thr() []any {
+	l := make([]any, r.W.NVB)
+	for i := range l {
+		l[i] = int64(0)
+		if ob := r.Client.Observer(uint16(i)); ob != nil {
+			l[i] = int64(ob.GetPersistSeqNo())
+		}
+	}
+	return l
 }
 
 var logOnce sync.Once
@@ -683,7 +723,7 @@ func (r *Rig) StateEv() Ev {
 		for i := range l {
 			l[i] = NoOff()
 		}
-		return Ev{"ev": "State", "offsets": l, "open": false, "active": 0}
+		return Ev{"ev": "State", "offsets": l, "open": false, "active": 0, "thr": r.thr()}
 	}
 	offs, _, _ := st.GetOffsets()
 	l := make([]any, r.W.NVB)
@@ -699,7 +739,7 @@ func (r *Rig) StateEv() Ev {
 		})
 	}
 	_, act := st.GetMetric()
-	return Ev{"ev": "State", "offsets": l, "open": st.IsOpen(), "active": int(act)}
+	return Ev{"ev": "State", "offsets": l, "open": st.IsOpen(), "active": int(act), "thr": r.thr()}
 }
 
 // Post is the projection of the implementation state the specification predicts after every step.
@@ -742,5 +782,5 @@ func (r *Rig) Post() Ev {
 	sort.Strings(pk)
 	m, active := st.GetMetric()
 	return Ev{"offsets": l, "dirty": ds, "flag": flag, "store": r.W.StoreEv(), "open": st.IsOpen(),
-		"parked": pk, "active": int(active), "rebalances": m.Rebalance, "stopped": r.Stopped()}
+		"parked": pk, "active": int(active), "rebalances": m.Rebalance, "stopped": r.Stopped(), "thr": r.thr()}
 }
